@@ -10,7 +10,14 @@ room definition under construction (all answer `q`):
   rauth  room=<n> id=<n> t=<int> by=<k>
   rright room=<n> g=<n> id=<n> e=<ent> ms=<0|1> ma=<0|1> t=<int> by=<k>
   ruser | ruadmin room=<n> g=<n> id=<n> k=<k> en=<0|1> t=<int> by=<k>
-  install room=<n>                      -> ok | err:<class>
+  install room=<n>                      -> ok | err:<class> | panic
+general candidates (C07; all answer `q`): a pool of signed rows and references, then lists
+  srow id= ent= c= m= by= body=user|right|name|none [k= en=] [e= ms= ma=] [v=] [sig=]
+  sedge n= src= se= l= dst= c= by= [sig=]
+  cand room=<row id> admins=<ids> aedges=<edge numbers> auths=<ids> authedges=<edge numbers>
+  cauth room= id=<row id> rights= redges= users= uedges= uadmins= uaedges=
+  probe room=<n> dates=<d,…>            -> probe live=<matrix|none> stored=<matrix|none|err>
+  dump                                  -> dump N=… E=… ND=… ED=…
 records of the remote peer (all answer `q`):
   node id= r= e= c= m= k= v= js=<shape> sig=<0|1> sg=<n> [ad=<int> asg=<n>]
   edge src= se= l= dst= c= k= sig=
@@ -28,9 +35,12 @@ structure St where
   defs : List RoomNode.RoomNode          -- room definitions under construction
   sysIds : List Nat                      -- ids of rows written by `install` (their signature rank is unknown)
   batch : Batch
+  rowPool : List RoomNode.SRow           -- signed rows a candidate can be assembled from
+  edgePool : List (Nat × RoomNode.PEdge)
 
 def St.init : St :=
-  { inst := Inst.empty, defs := [], sysIds := [], batch := { edgeDels := [], nodeDels := [], nodes := [], edges := [] } }
+  { inst := Inst.empty, defs := [], sysIds := [], batch := { edgeDels := [], nodeDels := [], nodes := [], edges := [] },
+    rowPool := [], edgePool := [] }
 
 def bool? (toks : List String) (k : String) : Option Bool :=
   match nat? toks k with
@@ -104,45 +114,100 @@ def sysRow (id ent : Nat) (t : Int) (by_ : Nat) (body : RoomNode.Body) : RoomNod
 def sysEdge (src srcEnt label dst : Nat) (t : Int) (by_ : Nat) : RoomNode.PEdge :=
   { src, srcEnt, label, dst, cdate := t, author := by_, sigOk := true }
 
-def rowOf (n : RoomNode.SRow) : NodeRow :=
-  { id := n.id, room := n.room, ent := n.ent, cdate := n.cdate, mdate := n.mdate, key := n.author, sg := 0, val := 0 }
+def rowOf (old : List NodeRow) (n : RoomNode.SRow) : NodeRow :=
+  let r : NodeRow := { id := n.id, room := n.room, ent := n.ent, cdate := n.cdate, mdate := n.mdate, key := n.author,
+                       sg := 0, val := n.body.tag }
+  -- the signature rank of a row that was in the table before is kept
+  match old.find? fun o => { o with sg := 0 } = r with
+  | some o => o
+  | none => r
+
+def srowOf (x : NodeRow) : RoomNode.SRow :=
+  { id := x.id, ent := x.ent, room := x.room, cdate := x.cdate, mdate := x.mdate, author := x.key,
+    body := RoomNode.Body.ofTag x.val, sigOk := true }
 
 def edgeOf (e : RoomNode.PEdge) : EdgeRow :=
   { src := e.src, srcEnt := e.srcEnt, label := e.label, dst := e.dst, cdate := e.cdate, key := e.author }
 
-/-- the rows and references `RoomNode::write` stores for a room that was not stored before, in its order -/
-def defRows (d : RoomNode.RoomNode) : List NodeRow × List EdgeRow :=
-  let authRows (a : RoomNode.AuthNode) : List NodeRow :=
-    (if a.needUpdate then [rowOf a.node] else []) ++ a.rightNodes.map rowOf ++ a.userNodes.map rowOf ++
-      a.userAdminNodes.map rowOf
-  let authEdges (a : RoomNode.AuthNode) : List EdgeRow :=
-    a.rightEdges.map edgeOf ++ a.userEdges.map edgeOf ++ a.userAdminEdges.map edgeOf
-  ([rowOf d.node] ++ d.adminNodes.map rowOf ++ d.authNodes.flatMap authRows,
-   d.adminEdges.map edgeOf ++ d.authEdges.map edgeOf ++ d.authNodes.flatMap authEdges)
+def pedgeOf (e : EdgeRow) : RoomNode.PEdge :=
+  { src := e.src, srcEnt := e.srcEnt, label := e.label, dst := e.dst, cdate := e.cdate, author := e.key, sigOk := true }
+
+def storeOf (i : Inst) : RoomNode.RStore :=
+  { rooms := i.rooms, nodes := i.nodes.map srowOf, edges := i.edges.map pedgeOf }
+
+def defIds (d : RoomNode.RoomNode) : List Nat :=
+  [d.node.id] ++ d.adminNodes.map (·.id) ++ d.authNodes.flatMap fun a =>
+    [a.node.id] ++ a.rightNodes.map (·.id) ++ a.userNodes.map (·.id) ++ a.userAdminNodes.map (·.id)
 
 def errName : RoomNode.RErr → String
   | .signature => "signature" | .inconsistent => "inconsistent" | .parse => "parse"
   | .room _ => "history" | .notAuthorised => "notauthorised" | .mutated => "mutated" | .noHistory => "nohistory"
 
-/-- `verify_room_node` + `add_room_node` for a room that is not known yet -/
+/-- `verify_room_node` + `add_room_node` -/
 def install (st : St) (room : Nat) : St × String :=
   match st.defs.find? (·.node.id = room) with
   | none => (st, "bad-op")
   | some d =>
-    let rows := defRows d
-    if st.inst.rooms.any (·.id = room) || rows.1.any (fun r => st.inst.nodes.any (·.id = r.id)) then (st, "bad-op")
-    else if !d.sigsOk then (st, "err:signature")
-    else if !d.consistent then (st, "err:inconsistent")
-    else
-      match RoomNode.prepareNewRoom d with
-      | .error e => (st, "err:" ++ errName e)
-      | .ok r =>
-        let inst := { st.inst with
-          rooms := st.inst.rooms ++ [r],
-          nodes := st.inst.nodes ++ rows.1,
-          edges := rows.2.foldl writeEdge st.inst.edges }
-        ({ st with inst, sysIds := st.sysIds ++ rows.1.map (·.id),
-                   defs := st.defs.filter (·.node.id ≠ room) }, "ok")
+    match RoomNode.accept RoomNode.Defects.asImplemented (storeOf st.inst) d with
+    | .err e => (st, "err:" ++ errName e)
+    | .panic => (st, "panic")
+    | .ok s' =>
+      let inst := { st.inst with rooms := s'.rooms, nodes := s'.nodes.map (rowOf st.inst.nodes),
+                                 edges := s'.edges.map edgeOf }
+      ({ st with inst, sysIds := st.sysIds ++ defIds d, defs := st.defs.filter (·.node.id ≠ room) }, "ok")
+
+def bit (b : Bool) : String := if b then "1" else "0"
+
+/-- decisions of a room definition for keys 0-5 at the given dates -/
+def matrix (r : RoomNode.RoomT) (dates : List Int) : String :=
+  joinWith "," (dates.flatMap fun d => (List.range 6).map fun k =>
+    s!"{d}:{k}:" ++ bit (r.isAdmin k d) ++ bit (r.isUserValidAt k d) ++ bit (r.auths.any (·.canAdminUsers k d)) ++
+      String.join ((List.range 3).map fun e =>
+        bit (r.can k (e + 1) d .mutateSelf) ++ bit (r.can k (e + 1) d .mutateAll)))
+
+def probe (st : St) (room : Nat) (dates : List Int) : String :=
+  let live := match st.inst.rooms.find? (·.id = room) with
+    | some r => matrix r dates
+    | none => "none"
+  let stored := match RoomNode.readBack (storeOf st.inst) room with
+    | none => "none"
+    | some rn =>
+      match rn.parse with
+      | .ok r => matrix r dates
+      | .error _ => "err"
+  s!"probe live={live} stored={stored}"
+
+def intList? (toks : List String) (k : String) : Option (List Int) :=
+  match kv? toks k with
+  | none => none
+  | some "" => some []
+  | some s => (s.splitOn ",").mapM String.toInt?
+
+def natListOr (toks : List String) (k : String) : Option (List Nat) :=
+  match kv? toks k with
+  | none => some []
+  | some "" => some []
+  | some s => (s.splitOn ",").mapM String.toNat?
+
+def pickRows (pool : List RoomNode.SRow) (ids : List Nat) : Option (List RoomNode.SRow) :=
+  ids.mapM fun i => pool.find? (·.id = i)
+
+def pickEdges (pool : List (Nat × RoomNode.PEdge)) (ns : List Nat) : Option (List RoomNode.PEdge) :=
+  ns.mapM fun i => (pool.find? (·.1 = i)).map (·.2)
+
+def body? (toks : List String) : Option RoomNode.Body :=
+  match kv? toks "body" with
+  | some "user" =>
+    match nat? toks "k", bool? toks "en" with
+    | some k, some en => if k < 8 then some (.user k en) else none
+    | _, _ => none
+  | some "right" =>
+    match nat? toks "e", bool? toks "ms", bool? toks "ma" with
+    | some e, some ms, some ma => if e ≤ 3 || e = 8 then some (.right e ms ma) else none
+    | _, _, _ => none
+  | some "name" => (nat? toks "v").bind fun v => if v < 1000 then some (.other v) else none
+  | some "none" => some .none
+  | _ => none
 
 /-- the same-millisecond tie-break of `filter_existing` compares signature bytes; the rank of the
     signatures made inside the instance (rows written by `install`) is not an input of the case -/
@@ -217,6 +282,56 @@ def stepLine (st : St) (line : String) : St × String :=
       | some defs => ({ st with defs }, "q")
       | none => (st, "bad-op")
     | _, _, _, _, _, _, _ => (st, "bad-op")
+  | "srow" :: rest =>
+    match nat? rest "id", nat? rest "ent", int? rest "c", int? rest "m", nat? rest "by", body? rest with
+    | some id, some ent, some c, some m, some b, some body =>
+      if b < 8 && (ent ≤ 3 && 1 ≤ ent || 100 ≤ ent && ent ≤ 103) then
+        let sig := (bool? rest "sig").getD true
+        let row : RoomNode.SRow := { id, ent, room := none, cdate := c, mdate := m, author := b, body, sigOk := sig }
+        ({ st with rowPool := st.rowPool.filter (·.id ≠ id) ++ [row] }, "q")
+      else (st, "bad-op")
+    | _, _, _, _, _, _ => (st, "bad-op")
+  | "sedge" :: rest =>
+    match nat? rest "n", nat? rest "src", nat? rest "se", nat? rest "l", nat? rest "dst", int? rest "c", nat? rest "by" with
+    | some n, some src, some se, some l, some dst, some c, some b =>
+      if b < 8 && (se ≤ 3 && 1 ≤ se || 100 ≤ se && se ≤ 103) && 1 ≤ l then
+        let sig := (bool? rest "sig").getD true
+        let e : RoomNode.PEdge := { src, srcEnt := se, label := l, dst, cdate := c, author := b, sigOk := sig }
+        ({ st with edgePool := st.edgePool.filter (·.1 ≠ n) ++ [(n, e)] }, "q")
+      else (st, "bad-op")
+    | _, _, _, _, _, _, _ => (st, "bad-op")
+  | "cand" :: rest =>
+    match nat? rest "room", natListOr rest "admins", natListOr rest "aedges", natListOr rest "auths", natListOr rest "authedges" with
+    | some room, some admins, some aedges, some auths, some authedges =>
+      match st.rowPool.find? (·.id = room), pickRows st.rowPool admins, pickEdges st.edgePool aedges,
+            pickRows st.rowPool auths, pickEdges st.edgePool authedges with
+      | some node, some an, some ae, some gn, some ge =>
+        let d : RoomNode.RoomNode :=
+          { node, adminEdges := ae, adminNodes := an, authEdges := ge,
+            authNodes := gn.map fun g => { node := g, rightEdges := [], rightNodes := [], userEdges := [], userNodes := [],
+                                           userAdminEdges := [], userAdminNodes := [], needUpdate := true } }
+        ({ st with defs := st.defs.filter (·.node.id ≠ room) ++ [d] }, "q")
+      | _, _, _, _, _ => (st, "bad-op")
+    | _, _, _, _, _ => (st, "bad-op")
+  | "cauth" :: rest =>
+    match nat? rest "room", nat? rest "id", natListOr rest "rights", natListOr rest "redges", natListOr rest "users",
+          natListOr rest "uedges", natListOr rest "uadmins", natListOr rest "uaedges" with
+    | some room, some id, some rights, some redges, some users, some uedges, some uadmins, some uaedges =>
+      match pickRows st.rowPool rights, pickEdges st.edgePool redges, pickRows st.rowPool users,
+            pickEdges st.edgePool uedges, pickRows st.rowPool uadmins, pickEdges st.edgePool uaedges with
+      | some rn, some re, some un, some ue, some an, some ae =>
+        match updAuth st.defs room id fun a =>
+          { a with rightNodes := rn, rightEdges := re, userNodes := un, userEdges := ue, userAdminNodes := an,
+                   userAdminEdges := ae } with
+        | some defs => ({ st with defs }, "q")
+        | none => (st, "bad-op")
+      | _, _, _, _, _, _ => (st, "bad-op")
+    | _, _, _, _, _, _, _, _ => (st, "bad-op")
+  | "dump" :: _ => (st, s!"dump {dump st.inst}")
+  | "probe" :: rest =>
+    match nat? rest "room", intList? rest "dates" with
+    | some room, some dates => (st, probe st room dates)
+    | _, _ => (st, "bad-op")
   | "install" :: rest =>
     match nat? rest "room" with
     | some room => install st room
